@@ -233,8 +233,49 @@ def echo_cases(part):
                                 s.teardown()
 
 
+def echo_sequences(part, tier):
+    """All sequences of <= 3 (thorough 4) KEEPALIVE frames over {respond, no respond} x 3 data values, delivered in ONE read /
+    before the endpoint runs (so several are handled before the sender task gets a turn) or one per read, both roles, both
+    framings: every respond-flagged one is answered by exactly one unflagged frame with ITS data, in order; no other answers."""
+    import itertools
+    from mc.world import inject
+    alpha = [(r, d) for r in (True, False) for d in (b'', b'first', b'second-ping')]
+    depth = 3 if tier == 'quick' else 4
+    for role in ('server', 'client'):
+        for flavour in ('tcp', 'msg', 'quic') if tier == 'quick' else ('tcp', 'msg', 'quic', 'wsk', 'h3'):
+            for n in range(2, depth + 1):
+                for seq in itertools.product(alpha, repeat=n):
+                    if not any(r for r, _ in seq):
+                        continue
+                    for batch in (True, False):
+                        s = Solo(role, flavour)
+                        try:
+                            mark = len(s.log)
+                            if batch:
+                                for r, d in seq:
+                                    inject(s.w, s.inn, R.enc_keepalive(r, d, 0))
+                                s.deliver('Q')
+                            else:
+                                for r, d in seq:
+                                    s.peer(R.enc_keepalive(r, d, 0))
+                            got = [(f.type, bool(f.flags & R.F_RESPOND), bytes(f.data or b''), f.sid) for f in s.sent(mark)]
+                            want = [(R.KEEPALIVE, False, d, 0) for r, d in seq if r]
+                            part.evaluations += 1
+                            part.traces += 1
+                            part.transitions += n
+                            part.state(('echo-seq', role, flavour, seq, batch, tuple(got)))
+                            part.nontriv(('echo-seq', role, flavour, seq, batch))
+                            if got != want:
+                                kind = 'wrong-data' if [g[:2] + g[3:] for g in got] == [w_[:2] + w_[3:] for w_ in want] else ('count' if len(got) != len(want) else 'wrong-echo')
+                                part.violate('C15.echo', 'C15.echo | sequence | %s | %s | %s' % (kind, role, 'one-read' if batch else 'one-per-read'),
+                                             'KEEPALIVE sequence %s (%s) answered with %s, expected %s' % ([(r, d) for r, d in seq], 'one read' if batch else 'one per read', got, want),
+                                             {'kind': 'echo-seq', 'role': role, 'flavour': flavour, 'seq': [[r, d.hex()] for r, d in seq], 'batch': batch})
+                        finally:
+                            s.teardown()
+
+
 def make_units(tier):
-    units = [{'kind': 'echo'}]
+    units = [{'kind': 'echo'}, {'kind': 'echo-seq', 'tier': tier}]
     bound = 3 if tier == 'quick' else 4
     for (p, L) in CONFIGS:
         for flavour in ('tcp', 'msg'):
@@ -248,6 +289,10 @@ def make_units(tier):
 
 
 def run_unit(unit, part):
+    if unit['kind'] == 'echo-seq':
+        echo_sequences(part, unit['tier'])
+        part.sample({'kind': 'echo-sequences', 'max_len': 3 if unit['tier'] == 'quick' else 4})
+        return
     if unit['kind'] == 'echo':
         echo_cases(part)
         part.sample({'kind': 'echo', 'respond': [False, True], 'data_lengths': [0, 1, 300], 'positions': [0, 2 ** 63 - 1]})
@@ -262,6 +307,25 @@ def replay(rec):
         p = Partial()
         echo_cases(p)
         return rec['signature'] in p.violations
+    if w['kind'] == 'echo-seq':
+        from mc.world import inject
+        s = Solo(w['role'], w['flavour'])
+        mark = len(s.log)
+        seq = [(r, bytes.fromhex(d)) for r, d in w['seq']]
+        for r, d in seq:
+            if w['batch']:
+                inject(s.w, s.inn, R.enc_keepalive(r, d, 0))
+            else:
+                s.peer(R.enc_keepalive(r, d, 0))
+        if w['batch']:
+            s.deliver('Q')
+        got = [(bool(f.flags & R.F_RESPOND), bytes(f.data or b'')) for f in s.sent(mark)]
+        want = [(False, d) for r, d in seq if r]
+        print('sent    :', seq)
+        print('answers :', got)
+        print('expected:', want)
+        s.teardown()
+        return got != want
     prefix = [[c[0], c[1]] for c in w['choices']]
     ch, sends, recvs, timeouts, horizon = run_pattern(w['period'], w['life'], w['flavour'], prefix, w.get('beat'))
     print('pattern:', [c[1] for c in ch.spelled()])
